@@ -270,6 +270,73 @@ def titan_70k_late(clen: int, c: int, late: int) -> bool:
     return _titan_seg(4, clen, 0, c, late)
 
 
+# ---- PyOpenSSL pump: TLS records coalesced with the handshake / split / several per read ---------
+def _tls_run(mode, stream, cut, late, titan):
+    from vf.tls import StubTLSConn
+    from vf.tlsserver import feed, make_tls
+    rec = _Rec(0)
+    conn = StubTLSConn(flights=1)
+    outer, tcp, loop, conn, made = make_tls(rec, None, rec if titan else None, conn)
+    a, b = stream.cut(cut)
+    if mode == 0:
+        feed(outer, tcp, [("hs",)])
+        feed(outer, tcp, [("app", stream)])
+    elif mode == 1:
+        feed(outer, tcp, [("hs",), ("app", stream)])               # rides with the final handshake flight
+    elif mode == 2:
+        feed(outer, tcp, [("hs",)])
+        feed(outer, tcp, [("app", a), ("app", b)])                 # two records in one TCP read
+    elif mode == 3:
+        feed(outer, tcp, [("hs",)])
+        feed(outer, tcp, [("app", a)])
+        feed(outer, tcp, [])                                       # a read that completes no record
+        feed(outer, tcp, [("app", b)])
+    else:
+        feed(outer, tcp, [("hs",), ("app", a)])
+        feed(outer, tcp, [("app", b)])
+    for _ in range(late):
+        feed(outer, tcp, [("app", mk(Fill(1))), ("app", mk(Fill(1)))])
+    loop.run_ready()
+    plain, close_seen, after, all_out = conn.delivered(tcp)
+    return rec, plain, close_seen, after, tcp
+
+
+def _tls_coalesce(mode, n, cut, late, titan, sk):
+    # (contract on the partitioned wrappers)
+    if titan:
+        stream = mk(b"titan://h/f;size=", SIZE_TXT[1 + sk], b"\r\n", Fill(SIZES[1 + sk]), Fill(n))
+    else:
+        stream = mk(b"gemini://h/", Fill(n), b"\r\n")
+    if titan:
+        cut = cut + 20                  # record boundary inside the content (boundaries inside the line: gemini variant)
+    if cut > len(stream):
+        cut = len(stream)
+    r0, p0, c0, a0, t0 = _tls_run(0, stream, 0, 0, titan)
+    r1, p1, c1, a1, t1 = _tls_run(mode, stream, cut, late, titan)
+    if len(r1.calls) + len(r1.uploads) > 1 or a1 != 0 or a0 != 0:
+        return V(False)
+    if len(r1.calls) != len(r0.calls) or len(r1.uploads) != len(r0.uploads):
+        return V(False)
+    return V(p1.same_as(p0) and c1 == c0 and (t1.closed > 0) == (t0.closed > 0))
+
+
+def tls_coalesce_gemini(mode: int, n: int, cut: int, late: int) -> bool:
+    """
+    pre: 1 <= mode <= 4 and 0 <= n <= 1100 and 0 <= cut <= n + 14 and 0 <= late <= 1
+    post: _
+    """
+    return _tls_coalesce(mode, n, cut, late, False, 0)
+
+
+def tls_coalesce_titan(mode: int, n: int, cut: int, late: int, sk: int) -> bool:
+    """
+    pre: 1 <= mode <= 4 and 0 <= n <= 1100 and 0 <= cut <= n + 1100 and 0 <= late <= 1
+    pre: 0 <= sk <= 1
+    post: _
+    """
+    return _tls_coalesce(mode, n, cut, late, True, sk)
+
+
 META = {
     "files": ["src/nauyaca/server/protocol.py", "src/nauyaca/protocol/request.py", "src/nauyaca/utils/url.py"],
     "level": "model_checking",
@@ -325,6 +392,18 @@ OBLIGATIONS = [
     Ob("titan_70k_late", titan_70k_late, quick=400, thorough=1200,
        symbolic="declared size 70000, content length 0..80000, one cut anywhere, 0..2 late reads",
        functions=["GeminiServerProtocol.data_received", "_handle_titan_url", "_process_titan_upload", "_handle_titan_upload_result", "TitanRequest.from_line"], stubs=["FakeTransport", "MiniLoop", "SymBuf", "NoLog", "FixedClock"]),
+    Ob("tls_coalesce_gemini", tls_coalesce_gemini, quick=500, thorough=1500,
+       symbolic="TLS record delivery mode (request coalesced with the final handshake flight / two records in one read / two reads with an "
+                "empty read between / first half with the handshake), line filler or trailing bytes 0..1100, cut offset, 0..2 late reads of "
+                "two records; gemini request; relational against the plain one-record delivery",
+       functions=["TLSServerProtocol.data_received", "_do_handshake", "_initialize_inner_protocol", "_process_pending_after_handshake",
+                  "_process_application_data", "_flush_outgoing", "TLSTransportWrapper", "GeminiServerProtocol.data_received"],
+       stubs=["StubTLSConn", "FakeTransport", "MiniLoop", "SymBuf"], outside=["real TLS record parsing (OpenSSL)"]),
+    Ob("tls_coalesce_titan", tls_coalesce_titan, quick=500, thorough=1500,
+       symbolic="as tls_coalesce_gemini for a Titan upload (declared size 7 or 1024): record boundary inside the content, trailing bytes 0..1100",
+       functions=["TLSServerProtocol.data_received", "_process_pending_after_handshake", "_process_application_data",
+                  "GeminiServerProtocol.data_received", "_handle_titan_url"],
+       stubs=["StubTLSConn", "FakeTransport", "MiniLoop", "SymBuf"]),
     Ob("titan_late_after", titan_late_after, quick=90, thorough=300,
        symbolic="size index 1..4, 0..3 further reads while the upload task is pending",
        functions=["GeminiServerProtocol.data_received", "_process_titan_upload", "_handle_titan_upload_result"]),
